@@ -749,6 +749,13 @@ class CompositeCanvas(Canvas):
             self.shards = shards_trim_rows(self.shards, count)
 
         self.coords = self.translate_coords(0, -top)
+        self._drop_cursor_outside()
+
+    def _drop_cursor_outside(self) -> None:
+        """Forget a cursor whose row or column has been trimmed away."""
+        c = self.coords.get("cursor")
+        if c is not None and not (0 <= c[0] < self.cols() and 0 <= c[1] < self.rows()):
+            del self.coords["cursor"]
 
     def trim_end(self, end: int) -> None:
         """Trim lines from the bottom of the canvas.
@@ -763,6 +770,7 @@ class CompositeCanvas(Canvas):
             raise self._finalized_error
 
         self.shards = shards_trim_rows(self.shards, self.rows() - end)
+        self._drop_cursor_outside()
 
     def pad_trim_left_right(self, left: int, right: int) -> None:
         """
@@ -793,6 +801,8 @@ class CompositeCanvas(Canvas):
 
         self.coords = self.translate_coords(left, 0)
         self.shards = shards
+        if left < 0 or right < 0:
+            self._drop_cursor_outside()
 
     def pad_trim_top_bottom(self, top: int, bottom: int) -> None:
         """
